@@ -206,3 +206,25 @@ Theorem C09_fd_bam_closed_loop_paced : forall prio sa dp pf p t0 A0 B0,
       ++ [(t0 + Z.of_nat (S ns) * iv, tp22_eom_status sa addr_GLOBAL 0 (len p) (Z.of_nat ns) pv)].
 Proof. exact Net22Bam.bam_closed_loop22_paced. Qed.
 Print Assumptions C09_fd_bam_closed_loop_paced.
+
+Theorem C09_fd_bam_closed_loop_paced_pdu1_and_pdu2 : forall prio sa dp pf ps p t0 A0 B0,
+  0 <= prio < 8 -> 0 <= sa < 255 -> (0 <= pf < 240 /\ ps = 255) \/ (240 <= pf < 256 /\ 0 <= ps < 256) ->
+  0 <= dp < 2 -> 60 < len p < 16777216 -> 0 < t0 ->
+  0 < f_bam_iv A0 < tp22_T1 -> 2 * f_bam_iv A0 < tp22_T1 ->
+  f_snd A0 = [] /\ f_rcv A0 = [] /\ f_mpg A0 = [] /\ n_timers (base A0) = [] /\ f_bam A0 = repeat true tp22_pool_bam ->
+  f_snd B0 = [] /\ f_rcv B0 = [] /\ f_mpg B0 = [] /\ n_timers (base B0) = [] ->
+  let pv := Net22Bam.bam_pgn22 dp pf ps in
+  let ns := ((length p + 59) / 60)%nat in
+  let iv := f_bam_iv A0 in
+  let s0 := Net22.net22_send (Net22.net22_0 A0 B0 t0) dp pf ps prio sa p in
+  Net22.wab2 s0 = [tp22_bam prio sa 0 pv (len p) (Z.of_nat ns)] /\ Net22.fclk s0 = t0 /\
+  exists j, (Net22.pa (Net22.steps22 j s0) = [] /\ Net22.pb (Net22.steps22 j s0) = [] /\
+             f_snd (Net22.fa (Net22.steps22 j s0)) = [] /\ f_rcv (Net22.fb (Net22.steps22 j s0)) = [] /\
+             Net22.evb2 (Net22.steps22 j s0) = deliveries (base B0) 7 pv sa addr_GLOBAL p) /\
+    Net22Bam.tlog22 j s0 =
+      map (fun k => (t0 + Z.of_nat (S k) * iv,
+                     match dt_frame sa addr_GLOBAL 0 (Z.of_nat k + 1) (Net22Proofs.row p k) with
+                     | Some (fr, _) => fr | None => tp22_bam prio sa 0 pv (len p) (Z.of_nat ns) end)) (seq 0 ns)
+      ++ [(t0 + Z.of_nat (S ns) * iv, tp22_eom_status sa addr_GLOBAL 0 (len p) (Z.of_nat ns) pv)].
+Proof. exact Net22Bam.bam_closed_loop22_paced_any. Qed.
+Print Assumptions C09_fd_bam_closed_loop_paced_pdu1_and_pdu2.
